@@ -7,21 +7,30 @@
 //            (contents of a and b, inline/heap flag, capacity); every (state, operation) pair is executed
 //            by replaying the representative history on fresh objects.
 //   phase B  heap-address probe: every reserve size n in N+1..64, with 0..7 other heap vectors alive,
-//            followed by push_back growth; looks at the actual heap addresses handed to SmallVector.
+//            followed by push_back growth; looks at the actual heap addresses handed to SmallVector, once
+//            with the process allocator as it is and once with the guarantee-only allocator (below).
 // Oracle: contents and size equal std::vector<int> driven by the same history; every element address is
 // a multiple of alignof(T); the lifetime registry is balanced (constructed once, destroyed once, never
 // constructed over a live object, live objects == elements of a and b at every observation, nothing live
-// at the end).
+// at the end); every heap block SmallVector obtained is released exactly once.
 //
 // Technical notes
 //  * The build uses -fno-sanitize-recover=undefined.  A misaligned placement-new inside SmallVector would
 //    abort the process before the oracle could report it, so UBSan's *alignment* check (only that one) is
 //    switched off for the functions of this TU, including the SmallVector members; the oracle checks
 //    alignment of every element address itself.
-//  * global operator new/delete are replaced by malloc/free (ASan still guards the blocks).  While a case
-//    runs, freed blocks are scribbled with 0xDD and their release is deferred to the end of the case, so a
-//    read through a dangling reference shows up as an oracle violation (wrong value / use of a non-live
-//    object) instead of an ASan abort that would lose the SEQRESULT line.
+//  * global operator new/delete are replaced (malloc/posix_memalign based, ASan still guards the blocks).
+//    Blocks requested while a SmallVector operation runs are remembered per case; when released they are
+//    scribbled with 0xDD and their release is deferred to the end of the case, so a read through a
+//    dangling reference shows up as an oracle violation (wrong value / use of a non-live object) instead
+//    of an ASan abort that would lose the SEQRESULT line.
+//  * allocator modes: `system` hands out what malloc returns; `minalign` (default for phase A) hands out
+//    blocks aligned to exactly __STDCPP_DEFAULT_NEW_ALIGNMENT__ (16) and not more, which is all that
+//    ::operator new(size_t) promises.  ASan's malloc happens to return 64-aligned blocks for every request
+//    >= 128 bytes, which would hide a missing over-alignment; glibc's malloc does not (see notes file).
+//  * threads: the three int and the three BigAligned configurations run on their own threads (BigAligned
+//    uses a thread-local seq::Registry with the same hooks); the three Tracked<int> configurations share
+//    seq::registry() and run one after the other on the main thread.  Results are merged in fixed order.
 #include "seq_common.h"
 
 #include <malloc.h>
@@ -29,51 +38,117 @@
 #include <fstream>
 #include <new>
 #include <sstream>
+#include <thread>
 #include <type_traits>
 
+#if defined(__has_feature)
+#if __has_feature(address_sanitizer)
+#define C38_ASAN 1
+#include <sanitizer/asan_interface.h>
+#endif
+#endif
+
+extern "C" __attribute__((used, visibility("default"))) const char* __asan_default_options() {
+  // use-after-free inside a case is caught by the deferred+scribbled release below; a large quarantine only costs time
+  return "quarantine_size_mb=0:thread_local_quarantine_size_kb=0:allocator_release_to_os_interval_ms=-1";
+}
+
 // ---------------------------------------------------------------------------------------------------
-// replaced global allocation functions (malloc based, deferred + scribbled release inside a case)
+// replaced global allocation functions
 namespace {
-struct DeferState {
-  void* p[512];
-  int n;
-  bool on;
-  bool double_free;
-  uint64_t allocs; // number of operator new calls while on
+int g_alloc_mode = 1; // 0 = system, 1 = minalign; written only while no other thread runs
+
+struct Block {
+  void* user;
+  void* base;
+  size_t size;
 };
-thread_local DeferState g_def;
+struct AllocState {
+  Block live[1024]; // blocks requested inside a SmallVector operation and not yet released
+  int nlive;
+  Block dead[512]; // released during the case, scribbled, really freed at the end of the case
+  int ndead;
+  bool in_op;
+  bool double_free;
+  bool overflow;
+};
+thread_local AllocState g_as;
 
 inline void* c38_alloc(size_t n) {
-  void* p = malloc(n ? n : 1);
-  if (!p) abort();
-  if (g_def.on) g_def.allocs++;
-  return p;
+  if (!n) n = 1;
+  if (!g_as.in_op) {
+    void* p = malloc(n);
+    if (!p) abort();
+    return p;
+  }
+  Block b;
+  b.size = n;
+  if (g_alloc_mode == 1) {
+    void* base = nullptr;
+    if (posix_memalign(&base, 32, n + 16) != 0 || !base) abort();
+    b.base = base;
+    b.user = (char*)base + 16; // == 16 mod 32: aligned for __STDCPP_DEFAULT_NEW_ALIGNMENT__, and for nothing stricter
+#ifdef C38_ASAN
+    ASAN_POISON_MEMORY_REGION(base, 16);
+#endif
+  } else {
+    b.base = b.user = malloc(n);
+    if (!b.base) abort();
+  }
+  if (g_as.nlive < 1024)
+    g_as.live[g_as.nlive++] = b;
+  else
+    g_as.overflow = true;
+  return b.user;
+}
+inline void c38_really_free(const Block& b) {
+#ifdef C38_ASAN
+  if (b.base != b.user) ASAN_UNPOISON_MEMORY_REGION(b.base, 16);
+#endif
+  free(b.base);
 }
 inline void c38_free(void* p) {
   if (!p) return;
-  if (g_def.on && g_def.n < 512) {
-    for (int i = 0; i < g_def.n; i++)
-      if (g_def.p[i] == p) {
-        g_def.double_free = true;
-        return;
-      }
-    memset(p, 0xDD, malloc_usable_size(p));
-    g_def.p[g_def.n++] = p;
-    return;
-  }
+  for (int i = g_as.nlive - 1; i >= 0; i--)
+    if (g_as.live[i].user == p) {
+      Block b = g_as.live[i];
+      g_as.live[i] = g_as.live[--g_as.nlive];
+      memset(b.user, 0xDD, b.size);
+      if (g_as.ndead < 512)
+        g_as.dead[g_as.ndead++] = b;
+      else
+        c38_really_free(b);
+      return;
+    }
+  for (int i = 0; i < g_as.ndead; i++)
+    if (g_as.dead[i].user == p) {
+      g_as.double_free = true;
+      return;
+    }
   free(p);
 }
-inline void defer_begin() {
-  g_def.n = 0;
-  g_def.double_free = false;
-  g_def.allocs = 0;
-  g_def.on = true;
+inline void case_begin() {
+  g_as.nlive = g_as.ndead = 0;
+  g_as.double_free = g_as.overflow = false;
+  g_as.in_op = false;
 }
-inline void defer_end() {
-  g_def.on = false;
-  for (int i = 0; i < g_def.n; i++) free(g_def.p[i]);
-  g_def.n = 0;
+inline int case_leaked() { return g_as.nlive; }
+inline void case_end() {
+  g_as.in_op = false;
+  for (int i = 0; i < g_as.ndead; i++) c38_really_free(g_as.dead[i]);
+  for (int i = 0; i < g_as.nlive; i++) c38_really_free(g_as.live[i]);
+  g_as.nlive = g_as.ndead = 0;
 }
+struct OpScope { // SmallVector code runs inside
+  bool prev;
+  OpScope() : prev(g_as.in_op) { g_as.in_op = true; }
+  ~OpScope() { g_as.in_op = prev; }
+};
+struct HostScope { // enumerator bookkeeping that may outlive the case
+  bool prev;
+  HostScope() : prev(g_as.in_op) { g_as.in_op = false; }
+  ~HostScope() { g_as.in_op = prev; }
+};
 } // namespace
 
 void* operator new(size_t n) { return c38_alloc(n); }
@@ -93,56 +168,86 @@ void operator delete[](void* p, const std::nothrow_t&) noexcept { c38_free(p); }
 
 #include <dispenso/small_vector.h>
 
-// over-aligned element type with the same registry hooks as seq::Tracked<int>
+namespace {
+inline seq::Registry& big_registry() {
+  thread_local seq::Registry r;
+  return r;
+}
+} // namespace
+
+// over-aligned element type with the same registry hooks as seq::Tracked<int> (thread-local registry)
 struct alignas(64) BigAligned {
   int v;
-  BigAligned() : v() { seq::registry().ctor(this, -1); }
-  BigAligned(const int& x) : v(x) { seq::registry().ctor(this, (long)x); }
+  BigAligned() : v() { big_registry().ctor(this, -1); }
+  BigAligned(const int& x) : v(x) { big_registry().ctor(this, (long)x); }
   BigAligned(const BigAligned& o) : v(o.v) {
-    seq::registry().use(&o);
-    seq::registry().ctor(this, (long)v);
+    big_registry().use(&o);
+    big_registry().ctor(this, (long)v);
   }
   BigAligned(BigAligned&& o) noexcept : v(o.v) {
-    seq::registry().use(&o);
-    seq::registry().ctor(this, (long)v);
+    big_registry().use(&o);
+    big_registry().ctor(this, (long)v);
     o.v = -7;
   }
   BigAligned& operator=(const BigAligned& o) {
-    seq::registry().use(&o);
-    seq::registry().use(this);
+    big_registry().use(&o);
+    big_registry().use(this);
     v = o.v;
     return *this;
   }
   BigAligned& operator=(BigAligned&& o) noexcept {
-    seq::registry().use(&o);
-    seq::registry().use(this);
+    big_registry().use(&o);
+    big_registry().use(this);
     v = o.v;
     if (&o != this) o.v = -7;
     return *this;
   }
-  ~BigAligned() { seq::registry().dtor(this); }
+  ~BigAligned() { big_registry().dtor(this); }
 };
 static_assert(alignof(BigAligned) == 64 && sizeof(BigAligned) == 64, "BigAligned layout");
 
 namespace {
 
+inline uintptr_t opaque_addr(const void* p) {
+  uintptr_t a = (uintptr_t)p;
+  asm volatile("" : "+r"(a));
+  return a;
+}
 inline int getv(const int& x) { return x; }
 inline int getv(const seq::Tracked<int>& x) { return x.v; }
 inline int getv(const BigAligned& x) { return x.v; }
 template <class T>
-struct TName;
+struct Traits;
 template <>
-struct TName<int> {
-  static const char* s() { return "int"; }
+struct Traits<int> {
+  static const char* name() { return "int"; }
+  static constexpr bool tracked = false;
+  static seq::Registry& reg() { return seq::registry(); } // unused
 };
 template <>
-struct TName<seq::Tracked<int>> {
-  static const char* s() { return "Tracked<int>"; }
+struct Traits<seq::Tracked<int>> {
+  static const char* name() { return "Tracked<int>"; }
+  static constexpr bool tracked = true;
+  static seq::Registry& reg() { return seq::registry(); }
 };
 template <>
-struct TName<BigAligned> {
-  static const char* s() { return "BigAligned"; }
+struct Traits<BigAligned> {
+  static const char* name() { return "BigAligned"; }
+  static constexpr bool tracked = true;
+  static seq::Registry& reg() { return big_registry(); }
 };
+
+// Registry internals must not look like SmallVector allocations: the bucket array is reserved once outside any
+// operation, and a reset also gives back the error string's buffer (string::clear would keep it).
+inline void registry_prepare(seq::Registry& r, size_t max_live) {
+  HostScope hs;
+  r.live.reserve(max_live); // small on purpose: unordered_map::clear() touches every bucket
+}
+inline void deep_reset(seq::Registry& r) {
+  r.live.clear(); // keeps the bucket array
+  std::string().swap(r.error);
+  r.constructed = r.destroyed = 0;
+}
 
 // ---- operations -----------------------------------------------------------------------------------
 enum Kind : uint8_t {
@@ -185,7 +290,6 @@ static std::vector<int> dedupe(std::vector<int> v) {
 
 static std::vector<Op> make_alphabet(int N, bool with_alias) {
   std::vector<Op> al;
-  const char* nm[2] = {"a", "b"};
   auto sizes = dedupe({0, 1, N, N + 1, 2 * N + 1});
   auto rsv = dedupe({0, N, N + 1, 2 * N + 1});
   auto ctor_sizes = dedupe({0, 1, N, N + 1});
@@ -220,9 +324,26 @@ static std::vector<Op> make_alphabet(int N, bool with_alias) {
     both(ALIAS_PUSH, 0, "a.push_back(a.front())", "b.push_back(b.front())");
     for (int n : big) both(ALIAS_RESIZE, n, seq::fmt("a.resize(%d,a.front())", n), seq::fmt("b.resize(%d,b.front())", n));
   }
-  (void)nm;
   return al;
 }
+
+// ---- canonical state key ----------------------------------------------------------------------------
+struct Key {
+  uint8_t len = 0;
+  uint8_t d[47];
+  void put(unsigned v) {
+    if (len >= sizeof d) abort();
+    d[len++] = (uint8_t)v;
+  }
+  bool operator==(const Key& o) const { return len == o.len && memcmp(d, o.d, len) == 0; }
+};
+struct KeyHash {
+  size_t operator()(const Key& k) const {
+    uint64_t h = 1469598103934665603ULL;
+    for (unsigned i = 0; i < k.len; i++) h = (h ^ k.d[i]) * 1099511628211ULL;
+    return (size_t)(h ^ (h >> 31));
+  }
+};
 
 // ---- one run --------------------------------------------------------------------------------------
 constexpr int kMaxDepth = 6;
@@ -234,65 +355,81 @@ struct Hist {
 enum Status { OK, DISABLED, HARD, SOFT };
 struct RunResult {
   Status st = OK;
+  std::string cls; // short class of the first hard error (used to keep one artefact per class)
   std::string err; // first hard error
   std::string soft; // first alignment error (does not stop exploration: the contents are still defined)
-  std::string key; // canonical state after the last op
-  std::string prefix_key; // canonical state before the last op
+  Key key; // canonical state after the last op
+  Key prefix_key; // canonical state before the last op
   bool nontrivial = false;
+  void hard(const char* c, const std::string& msg) {
+    HostScope hs;
+    if (err.empty()) {
+      cls = c;
+      err = msg;
+    }
+  }
 };
 
 template <class T, size_t N>
 struct Runner {
   using SV = dispenso::SmallVector<T, N>;
-  static constexpr bool kTracked = !std::is_same<T, int>::value;
+  static constexpr bool kTracked = Traits<T>::tracked;
   std::vector<Op> alphabet;
 
-  static void key_of(const SV& x, const std::vector<int>& m, std::string& k) {
-    k.push_back((char)m.size());
-    for (int v : m) k.push_back((char)v);
-    k.push_back(x.isInline() ? 'i' : 'h');
+  static void key_of1(const SV& x, const std::vector<int>& m, Key& k) {
+    k.put((unsigned)m.size());
+    for (int v : m) k.put((unsigned)v);
+    k.put(x.isInline() ? 'i' : 'h');
     size_t c = x.capacity();
-    k.push_back((char)(c & 0xff));
-    k.push_back((char)((c >> 8) & 0xff));
+    k.put(c & 0xff);
+    k.put((c >> 8) & 0xff);
+  }
+  // canonical state of the ordered pair (a, b); no a<->b symmetry reduction is applied
+  static void key_of(SV* v[2], const std::vector<int> m[2], Key& k) {
+    key_of1(*v[0], m[0], k);
+    key_of1(*v[1], m[1], k);
   }
 
   // full observation of one vector against its model; returns false on a hard error
   static bool observe(const char* who, SV& x, const std::vector<int>& m, RunResult& r) {
     const SV& cx = x;
-    auto hard = [&](const std::string& s) {
-      if (r.err.empty()) r.err = std::string(who) + ": " + s;
+    auto hard = [&](const char* cls, const std::string& s) {
+      r.hard(cls, std::string(who) + ": " + s);
       return false;
     };
-    if (x.size() != m.size()) return hard(seq::fmt("size() %zu, std::vector has %zu", x.size(), m.size()));
-    if (x.empty() != m.empty()) return hard("empty() disagrees with std::vector");
-    if (x.size() > 4096) return hard("absurd size");
+    if (x.size() != m.size()) return hard("size", seq::fmt("size() %zu, std::vector has %zu", x.size(), m.size()));
+    if (x.empty() != m.empty()) return hard("size", "empty() disagrees with std::vector");
     size_t n = m.size();
     if (x.end() - x.begin() != (std::ptrdiff_t)n || cx.end() - cx.begin() != (std::ptrdiff_t)n || x.cend() - x.cbegin() != (std::ptrdiff_t)n)
-      return hard("end()-begin() != size()");
-    if (x.begin() != x.data() || cx.begin() != cx.data() || cx.cbegin() != cx.data()) return hard("begin() != data()");
+      return hard("iter", "end()-begin() != size()");
+    if (x.begin() != x.data() || cx.begin() != cx.data() || cx.cbegin() != cx.data()) return hard("iter", "begin() != data()");
     size_t i = 0;
     for (auto it = x.begin(); it != x.end(); ++it, ++i) {
-      if (getv(*it) != m[i]) return hard(seq::fmt("iteration: element %zu is %d, std::vector has %d", i, getv(*it), m[i]));
+      if (getv(*it) != m[i]) return hard("contents", seq::fmt("iteration: element %zu is %d, std::vector has %d", i, getv(*it), m[i]));
     }
     i = 0;
     for (const auto& e : cx) {
-      if (getv(e) != m[i]) return hard(seq::fmt("const iteration: element %zu is %d, std::vector has %d", i, getv(e), m[i]));
+      if (getv(e) != m[i]) return hard("contents", seq::fmt("const iteration: element %zu is %d, std::vector has %d", i, getv(e), m[i]));
       ++i;
     }
     for (i = 0; i < n; i++) {
-      if (&x[i] != x.data() + i || &cx[i] != cx.data() + i) return hard("operator[] address != data()+i");
-      if (getv(x[i]) != m[i] || getv(cx[i]) != m[i]) return hard(seq::fmt("operator[]: element %zu is %d, std::vector has %d", i, getv(x[i]), m[i]));
-      uintptr_t ad = (uintptr_t)&x[i];
+      if (&x[i] != x.data() + i || &cx[i] != cx.data() + i) return hard("iter", "operator[] address != data()+i");
+      if (getv(x[i]) != m[i] || getv(cx[i]) != m[i])
+        return hard("contents", seq::fmt("operator[]: element %zu is %d, std::vector has %d", i, getv(x[i]), m[i]));
+      // &x[i] == data()+i was just checked; the address is taken from the raw pointer and hidden from the optimiser,
+      // which would otherwise fold "T& is aligned" into this test
+      uintptr_t ad = opaque_addr(x.data()) + i * sizeof(T);
       if (ad % alignof(T) != 0 && r.soft.empty())
-        r.soft = seq::fmt("%s: element address in %s storage is not a multiple of alignof(T)=%zu", who, x.isInline() ? "inline" : "heap", alignof(T));
+        r.soft = seq::fmt("%s: element address in %s storage is not a multiple of alignof(T)=%zu (address %% %zu = %zu)", who, x.isInline() ? "inline" : "heap",
+                          alignof(T), alignof(T), (size_t)(ad % alignof(T)));
       if (kTracked) {
-        auto it = seq::registry().live.find((const void*)&x[i]);
-        if (it == seq::registry().live.end()) return hard(seq::fmt("element %zu is not a live object in the lifetime registry", i));
+        auto& live = Traits<T>::reg().live;
+        if (live.find((const void*)&x[i]) == live.end()) return hard("notlive", seq::fmt("element %zu is not a live object in the lifetime registry", i));
       }
     }
     if (n) {
-      if (&x.front() != &x[0] || &cx.front() != &cx[0] || getv(x.front()) != m.front()) return hard("front() disagrees");
-      if (&x.back() != &x[n - 1] || &cx.back() != &cx[n - 1] || getv(x.back()) != m.back()) return hard("back() disagrees");
+      if (&x.front() != &x[0] || &cx.front() != &cx[0] || getv(x.front()) != m.front()) return hard("contents", "front() disagrees");
+      if (&x.back() != &x[n - 1] || &cx.back() != &cx[n - 1] || getv(x.back()) != m.back()) return hard("contents", "back() disagrees");
     }
     return true;
   }
@@ -343,13 +480,11 @@ struct Runner {
 
   // applies one op; returns false if the op is not applicable in this state
   static bool apply(const Op& op, SV* v[2], std::vector<int> m[2], RunResult& r) {
+    OpScope in_op;
     SV& x = *v[op.target];
     SV& y = *v[1 - op.target];
     std::vector<int>& mx = m[op.target];
     std::vector<int>& my = m[1 - op.target];
-    auto hard = [&](const std::string& s) {
-      if (r.err.empty()) r.err = op.name + ": " + s;
-    };
     switch (op.kind) {
       case PUSH_C: {
         const T t(1);
@@ -366,7 +501,7 @@ struct Runner {
       case EMPLACE: {
         T& ref = x.emplace_back(3);
         mx.emplace_back(3);
-        if (&ref != &x[x.size() - 1]) hard("emplace_back did not return a reference to the last element");
+        if (&ref != &x[x.size() - 1]) r.hard("retval", op.name + ": emplace_back did not return a reference to the last element");
         break;
       }
       case POP:
@@ -404,7 +539,7 @@ struct Runner {
         typename SV::const_iterator cit = x.cbegin() + pos;
         auto it = x.erase(cit);
         mx.erase(mx.begin() + pos);
-        if (it != x.begin() + pos) hard("erase did not return the iterator at the erased position");
+        if (it != x.begin() + pos) r.hard("retval", op.name + ": erase did not return the iterator at the erased position");
         break;
       }
       case COPY_ASSIGN:
@@ -481,25 +616,27 @@ struct Runner {
     s += "] model[";
     for (size_t i = 0; i < m.size(); i++) s += (i ? "," : "") + std::to_string(m[i]);
     s += seq::fmt("] %s cap=%zu data=%p (data%%alignof(T)=%zu)", x.isInline() ? "inline" : "heap", x.capacity(), (void*)x.data(),
-                  (size_t)((uintptr_t)x.data() % alignof(T)));
+                  (size_t)(opaque_addr(x.data()) % alignof(T)));
     return s;
   }
 
   // replays h on fresh objects, checks after the last op
   void run(const Hist& h, RunResult& r, bool verbose) const {
-    seq::registry().reset();
-    defer_begin();
+    seq::Registry& reg = Traits<T>::reg();
+    if (kTracked) deep_reset(reg);
+    case_begin();
     bool any_heap = false, cross = false;
     {
       alignas(SV) unsigned char buf[2][sizeof(SV)];
       SV* v[2] = {new (buf[0]) SV(), new (buf[1]) SV()};
       std::vector<int> m[2];
+      m[0].reserve(32);
+      m[1].reserve(32);
       bool alive = true;
       for (int i = 0; i < h.len && alive; i++) {
         const Op& op = alphabet[h.op[i]];
         if (i == h.len - 1) {
-          key_of(*v[0], m[0], r.prefix_key);
-          key_of(*v[1], m[1], r.prefix_key);
+          key_of(v, m, r.prefix_key);
           any_heap = !v[0]->isInline() || !v[1]->isInline();
         }
         bool applicable = apply(op, v, m, r);
@@ -511,10 +648,10 @@ struct Runner {
         }
         if (verbose) {
           printf("  %-26s a=%s\n  %-26s b=%s\n", op.name.c_str(), describe(*v[0], m[0]).c_str(), "", describe(*v[1], m[1]).c_str());
-          if (!seq::registry().error.empty()) printf("  registry: %s\n", seq::registry().error.c_str());
+          if (kTracked && !reg.error.empty()) printf("  registry: %s\n", reg.error.c_str());
         }
-        if (kTracked && !seq::registry().error.empty()) {
-          if (r.err.empty()) r.err = op.name + ": lifetime registry: " + seq::registry().error;
+        if (kTracked && !reg.error.empty()) {
+          r.hard(reg.error.substr(0, 18).c_str(), op.name + ": lifetime registry: " + reg.error);
           alive = false;
         }
         if (!r.err.empty()) alive = false;
@@ -527,68 +664,88 @@ struct Runner {
         bool ok = observe("a", *v[0], m[0], r) && observe("b", *v[1], m[1], r);
         if (ok && kTracked) {
           size_t want = m[0].size() + m[1].size();
-          if (seq::registry().live.size() != want)
-            r.err = seq::fmt("lifetime registry has %zu live objects but a and b hold %zu elements", seq::registry().live.size(), want);
-          else if (!seq::registry().error.empty())
-            r.err = "lifetime registry: " + seq::registry().error;
+          if (reg.live.size() != want)
+            r.hard("livecount", seq::fmt("lifetime registry has %zu live objects but a and b hold %zu elements", reg.live.size(), want));
+          else if (!reg.error.empty())
+            r.hard(reg.error.substr(0, 18).c_str(), "lifetime registry: " + reg.error);
         }
-        key_of(*v[0], m[0], r.key);
-        key_of(*v[1], m[1], r.key);
+        key_of(v, m, r.key);
       }
       // destruction is part of every case
-      v[0]->~SV();
-      v[1]->~SV();
+      {
+        OpScope in_op;
+        v[0]->~SV();
+        v[1]->~SV();
+      }
     }
     if (r.st != DISABLED) {
       if (kTracked && r.err.empty()) {
-        auto& reg = seq::registry();
         if (!reg.error.empty())
-          r.err = "at destruction: lifetime registry: " + reg.error;
+          r.hard(reg.error.substr(0, 18).c_str(), "at destruction: lifetime registry: " + reg.error);
         else if (!reg.live.empty())
-          r.err = seq::fmt("%zu element(s) still live after both vectors were destroyed", reg.live.size());
+          r.hard("leak-elem", seq::fmt("%zu element(s) still live after both vectors were destroyed", reg.live.size()));
         else if (reg.constructed != reg.destroyed)
-          r.err = seq::fmt("constructed %ld != destroyed %ld", reg.constructed, reg.destroyed);
+          r.hard("balance", seq::fmt("constructed %ld != destroyed %ld", reg.constructed, reg.destroyed));
       }
-      if (r.err.empty() && g_def.double_free) r.err = "heap block passed to operator delete twice";
+      if (kTracked) deep_reset(reg); // registry nodes go back before the heap-block balance is looked at
+      if (r.err.empty() && g_as.double_free) r.hard("double-free", "heap block passed to operator delete twice");
+      if (r.err.empty() && case_leaked()) r.hard("leak-heap", seq::fmt("%d heap block(s) obtained by SmallVector were never released", case_leaked()));
+      if (g_as.overflow) abort();
       r.nontrivial = any_heap || cross;
       if (!r.err.empty())
         r.st = HARD;
       else if (!r.soft.empty())
         r.st = SOFT;
     }
-    defer_end();
-    seq::registry().reset();
+    case_end();
   }
 };
 
-// ---- driver ---------------------------------------------------------------------------------------
-struct Totals {
-  uint64_t states = 0;
+// ---- per-configuration result (merged deterministically) --------------------------------------------
+struct Viol {
+  std::string tag, msg, replay;
 };
+struct CfgResult {
+  uint64_t evaluations = 0, nontrivial = 0, states = 0;
+  std::vector<uint64_t> hashes; // first kHashCap non-trivial case hashes; the rest are only counted (pairwise distinct by construction)
+  std::vector<std::string> samples;
+  std::vector<Viol> viols;
+  std::string log;
+  void violation(const std::string& tag, const std::string& msg, const std::string& replay) {
+    for (auto& v : viols)
+      if (v.tag == tag) return;
+    viols.push_back({tag, msg, replay});
+  }
+};
+constexpr size_t kHashCap = 20000;
 
 static std::string hist_text(const std::vector<Op>& al, const Hist& h) {
   std::string s;
   for (int i = 0; i < h.len; i++) s += (i ? ";" : "") + al[h.op[i]].name;
   return s;
 }
-static std::string replay_text(const char* tname, int N, const std::string& ops) { return seq::fmt("type %s\nN %d\nops %s", tname, N, ops.c_str()); }
+static std::string replay_text(const char* tname, int N, const std::string& ops) {
+  return seq::fmt("type %s\nN %d\nalloc %s\nops %s", tname, N, g_alloc_mode ? "minalign" : "system", ops.c_str());
+}
 
 template <class T, size_t N>
-static void explore(seq::Report& rep, int depth, bool with_alias, std::set<std::string>& reported, Totals& tot) {
+static void explore(CfgResult& res, int depth, bool with_alias) {
+  auto t_start = std::chrono::steady_clock::now();
   Runner<T, N> R;
   R.alphabet = make_alphabet((int)N, with_alias);
   if (R.alphabet.size() > 255) abort();
-  const char* tn = TName<T>::s();
-  std::unordered_set<std::string> visited;
-  std::vector<std::pair<Hist, const std::string*>> frontier, next;
+  const char* tn = Traits<T>::name();
+  if (Traits<T>::tracked) registry_prepare(Traits<T>::reg(), 256);
+  std::unordered_set<Key, KeyHash> visited;
+  std::vector<std::pair<Hist, const Key*>> frontier, next;
   {
     Hist h0{};
     RunResult r0;
     R.run(h0, r0, false);
-    rep.evaluations++;
+    res.evaluations++;
     auto ins = visited.insert(r0.key);
     frontier.push_back({h0, &*ins.first});
-    if (r0.st == HARD) rep.violation(seq::fmt("T=%s N=%zu: %s", tn, N, r0.err.c_str()), replay_text(tn, (int)N, ""));
+    if (r0.st == HARD) res.violation(std::string(tn) + "|" + r0.cls, seq::fmt("T=%s N=%zu: empty history: %s", tn, N, r0.err.c_str()), replay_text(tn, (int)N, ""));
   }
   uint64_t cfg_hash = seq::mix(seq::mix(0x38, std::hash<std::string>()(tn)), N);
   for (int d = 1; d <= depth; d++) {
@@ -600,41 +757,42 @@ static void explore(seq::Report& rep, int depth, bool with_alias, std::set<std::
         RunResult r;
         R.run(h, r, false);
         if (r.st == DISABLED) continue;
-        rep.evaluations++;
-        if (r.prefix_key != *fe.second) {
-          rep.violation(seq::fmt("T=%s N=%zu: replay of a history reached a different canonical state (non-deterministic)", tn, N),
+        res.evaluations++;
+        if (!(r.prefix_key == *fe.second)) {
+          res.violation(std::string(tn) + "|nondet", seq::fmt("T=%s N=%zu: replay of a history reached a different canonical state (non-deterministic)", tn, N),
                         replay_text(tn, (int)N, hist_text(R.alphabet, h)));
           continue;
         }
         if (r.nontrivial) {
-          uint64_t hh = cfg_hash;
-          for (int i = 0; i < h.len; i++) hh = seq::mix(hh, h.op[i] + 1);
-          if (rep.distinct.size() < 2000000)
-            rep.add_distinct(hh);
-          else
-            rep.distinct_overflow++; // histories are pairwise distinct by construction of the BFS
-          if (rep.samples.size() < 5 && h.len >= 3 && (rep.evaluations % 9973) == 0)
-            rep.sample(seq::fmt("{\"T\":\"%s\",\"N\":%zu,\"ops\":\"%s\"}", tn, N, hist_text(R.alphabet, h).c_str()));
+          res.nontrivial++;
+          if (res.hashes.size() < kHashCap) {
+            uint64_t hh = cfg_hash;
+            for (int i = 0; i < h.len; i++) hh = seq::mix(hh, h.op[i] + 1);
+            res.hashes.push_back(hh);
+          }
+          if (res.samples.empty() && h.len >= 3 && res.nontrivial >= 5000)
+            res.samples.push_back(seq::fmt("{\"T\":\"%s\",\"N\":%zu,\"ops\":\"%s\"}", tn, N, hist_text(R.alphabet, h).c_str()));
         }
         if (r.st == HARD || r.st == SOFT) {
+          // one artefact per (element type, aliasing argument or not, class of failure); the first one is the shortest
+          std::string tag = std::string(tn) + "|" + (r.st == HARD ? (R.alphabet[oi].kind >= ALIAS_PUSH ? "alias|" : "") + r.cls : std::string("align"));
           const std::string& why = r.st == HARD ? r.err : r.soft;
-          // one artefact per (element type, kind of failure): the first one found is the shortest for the smallest N
-          std::string kind = why.substr(why.find(": ") == std::string::npos ? 0 : why.find(": ") + 2);
-          std::string tag = std::string(tn) + "|" + std::string(R.alphabet[oi].kind >= ALIAS_PUSH ? "alias|" : "") + kind.substr(0, 40);
-          if (reported.insert(tag).second)
-            rep.violation(seq::fmt("T=%s N=%zu: after [%s]: %s", tn, N, hist_text(R.alphabet, h).c_str(), why.c_str()),
-                          replay_text(tn, (int)N, hist_text(R.alphabet, h)));
+          res.violation(tag, seq::fmt("T=%s N=%zu: after [%s]: %s", tn, N, hist_text(R.alphabet, h).c_str(), why.c_str()),
+                        replay_text(tn, (int)N, hist_text(R.alphabet, h)));
           if (r.st == HARD) continue; // state is broken, do not build on it
         }
-        auto ins = visited.insert(r.key);
-        if (ins.second && d < depth) next.push_back({h, &*ins.first});
+        if (d < depth) { // states of the last level are not expanded, no need to remember them
+          auto ins = visited.insert(r.key);
+          if (ins.second) next.push_back({h, &*ins.first});
+        }
       }
     }
     frontier.swap(next);
   }
-  tot.states += visited.size();
-  fprintf(stderr, "[c38] T=%s N=%zu depth=%d alphabet=%zu states=%zu evaluations so far=%llu\n", tn, N, depth, R.alphabet.size(), visited.size(),
-          (unsigned long long)rep.evaluations);
+  res.states = visited.size();
+  res.log = seq::fmt("[c38] T=%s N=%zu depth=%d alphabet=%zu expanded canonical states=%zu evaluations=%llu non-trivial=%llu (%.1f s)", tn, N, depth,
+                     R.alphabet.size(), visited.size(), (unsigned long long)res.evaluations, (unsigned long long)res.nontrivial,
+                     std::chrono::duration<double>(std::chrono::steady_clock::now() - t_start).count());
 }
 
 // ---- phase B: heap address probe -------------------------------------------------------------------
@@ -643,55 +801,58 @@ struct ProbeStats {
   size_t min_align = 1 << 20;
 };
 template <class T, size_t N>
-static void probe(seq::Report& rep, std::set<std::string>& reported, ProbeStats& ps) {
+static void probe(CfgResult& res, ProbeStats& ps) {
   using SV = dispenso::SmallVector<T, N>;
-  const char* tn = TName<T>::s();
+  const char* tn = Traits<T>::name();
+  seq::Registry& reg = Traits<T>::reg();
+  if (Traits<T>::tracked) registry_prepare(reg, 1024);
   for (int ballast = 0; ballast <= 7; ballast++) {
     for (int n = (int)N + 1; n <= 64; n++) {
-      seq::registry().reset();
-      defer_begin();
-      std::string err, mis;
+      deep_reset(reg);
+      case_begin();
+      const char* err = nullptr;
+      size_t mis = 0;
       {
+        std::vector<int> m;
+        m.reserve(2 * (size_t)n + 1);
+        OpScope in_op;
         SV keep[7];
         for (int k = 0; k < ballast; k++) keep[k].reserve(N + 1 + (size_t)k * 3);
         SV v;
-        std::vector<int> m;
         v.reserve((size_t)n);
         const T* last_data = nullptr;
-        for (int i = 0; i < 2 * n + 1 && err.empty(); i++) {
+        for (int i = 0; i < 2 * n + 1 && !err; i++) {
           v.push_back(T(i & 63));
           m.push_back(i & 63);
           if (v.data() != last_data) { // a new heap buffer
             last_data = v.data();
             ps.heap_buffers++;
-            uintptr_t ad = (uintptr_t)v.data();
+            uintptr_t ad = opaque_addr(v.data());
             size_t al = (size_t)(ad & (~ad + 1));
             if (al < ps.min_align) ps.min_align = al;
             if (ad % alignof(T)) { // keep going: count every misaligned buffer of the cell
               ps.misaligned++;
-              if (mis.empty()) mis = seq::fmt("heap element address %% alignof(T)=%zu is %zu", alignof(T), (size_t)(ad % alignof(T)));
+              if (!mis) mis = (size_t)(ad % alignof(T));
             }
           }
           if (v.size() != m.size() || getv(v.back()) != m.back() || getv(v[0]) != m[0]) err = "contents differ from std::vector";
         }
-        for (size_t i = 0; i < m.size() && err.empty(); i++)
+        for (size_t i = 0; i < m.size() && !err; i++)
           if (getv(v[i]) != m[i]) err = "contents differ from std::vector";
       }
-      auto& reg = seq::registry();
-      if (err.empty() && !std::is_same<T, int>::value && (!reg.error.empty() || !reg.live.empty() || reg.constructed != reg.destroyed))
-        err = "lifetime registry unbalanced: " + reg.error;
-      defer_end();
-      seq::registry().reset();
-      if (err.empty()) err = mis;
-      rep.evaluations++;
-      rep.add_distinct(seq::mix(seq::mix(seq::mix(0xB38, std::hash<std::string>()(tn)), N * 1000 + (size_t)n), (uint64_t)ballast));
-      if (!err.empty()) {
-        std::string tag = std::string(tn) + "|probe|" + err.substr(0, 30);
-        if (reported.insert(tag).second)
-          rep.violation(seq::fmt("T=%s N=%zu: heap probe reserve(%d) with %d other heap vectors alive then push_back x%d: %s", tn, N, n, ballast, 2 * n + 1,
-                                 err.c_str()),
-                        seq::fmt("type %s\nN %zu\nprobe %d %d", tn, N, n, ballast));
-      }
+      if (!err && Traits<T>::tracked && (!reg.error.empty() || !reg.live.empty() || reg.constructed != reg.destroyed)) err = "lifetime registry unbalanced";
+      deep_reset(reg);
+      if (!err && (case_leaked() || g_as.double_free)) err = "heap blocks not released exactly once";
+      case_end();
+      res.evaluations++;
+      res.nontrivial++;
+      res.hashes.push_back(seq::mix(seq::mix(seq::mix(0xB38 + (uint64_t)g_alloc_mode, std::hash<std::string>()(tn)), N * 1000 + (size_t)n), (uint64_t)ballast));
+      std::string e = err ? err : (mis ? seq::fmt("heap element address %% alignof(T)=%zu is %zu", alignof(T), mis) : "");
+      if (!e.empty())
+        res.violation(std::string(tn) + "|probe|" + (err ? "hard" : "align") + (g_alloc_mode ? "|minalign" : "|system"),
+                      seq::fmt("T=%s N=%zu allocator=%s: heap probe reserve(%d) with %d other heap vectors alive then push_back x%d: %s", tn, N,
+                               g_alloc_mode ? "minalign" : "system", n, ballast, 2 * n + 1, e.c_str()),
+                      seq::fmt("type %s\nN %zu\nalloc %s\nprobe %d %d", tn, N, g_alloc_mode ? "minalign" : "system", n, ballast));
     }
   }
 }
@@ -700,7 +861,9 @@ static void probe(seq::Report& rep, std::set<std::string>& reported, ProbeStats&
 template <class T, size_t N>
 static int replay_ops(const std::string& ops, bool with_alias) {
   Runner<T, N> R;
-  R.alphabet = make_alphabet((int)N, with_alias);
+  R.alphabet = make_alphabet((int)N, true);
+  (void)with_alias;
+  if (Traits<T>::tracked) registry_prepare(Traits<T>::reg(), 256);
   Hist h{};
   std::stringstream ss(ops);
   std::string tok;
@@ -715,7 +878,8 @@ static int replay_ops(const std::string& ops, bool with_alias) {
     }
     h.op[h.len++] = (uint8_t)k;
   }
-  printf("replay: T=%s N=%zu ops=%s\n", TName<T>::s(), N, ops.c_str());
+  printf("replay: T=%s (alignof %zu, sizeof %zu) N=%zu allocator=%s ops=%s\n", Traits<T>::name(), alignof(T), sizeof(T), N, g_alloc_mode ? "minalign" : "system",
+         ops.c_str());
   RunResult r;
   R.run(h, r, true);
   if (r.st == HARD) printf("replay: VIOLATION %s\n", r.err.c_str());
@@ -726,29 +890,27 @@ static int replay_ops(const std::string& ops, bool with_alias) {
 }
 template <class T, size_t N>
 static int replay_probe(int n, int ballast) {
-  seq::Report rep;
-  rep.name = "c38_smallvector";
-  rep.replay_dir = "/tmp";
-  std::set<std::string> reported;
+  CfgResult res;
   ProbeStats ps;
-  probe<T, N>(rep, reported, ps); // the probe domain is tiny: rerun all of it, report the requested cell
-  printf("replay: probe T=%s N=%zu (requested reserve(%d), ballast %d): %llu heap buffers, %llu misaligned, min alignment %zu\n", TName<T>::s(), N, n, ballast,
-         (unsigned long long)ps.heap_buffers, (unsigned long long)ps.misaligned, ps.min_align);
-  for (auto& v : rep.violations) printf("replay: VIOLATION %s\n", v.msg.c_str());
-  return rep.violations.empty() ? 0 : 1;
+  probe<T, N>(res, ps); // the probe domain is tiny: rerun all of it for this (T, N, allocator)
+  printf("replay: probe T=%s N=%zu allocator=%s (artefact cell: reserve(%d), ballast %d): %llu heap buffers, %llu misaligned, min alignment seen %zu\n",
+         Traits<T>::name(), N, g_alloc_mode ? "minalign" : "system", n, ballast, (unsigned long long)ps.heap_buffers, (unsigned long long)ps.misaligned,
+         ps.min_align);
+  for (auto& v : res.viols) printf("replay: VIOLATION %s\n", v.msg.c_str());
+  return res.viols.empty() ? 0 : 1;
 }
 
-#define FOR_CFG(T_, N_, CALL)                                                        \
-  do {                                                                               \
-    if (type == "int" && N_ == 1) return CALL(int, 1);                               \
-    if (type == "int" && N_ == 2) return CALL(int, 2);                               \
-    if (type == "int" && N_ == 4) return CALL(int, 4);                               \
-    if (type == "Tracked<int>" && N_ == 1) return CALL(seq::Tracked<int>, 1);        \
-    if (type == "Tracked<int>" && N_ == 2) return CALL(seq::Tracked<int>, 2);        \
-    if (type == "Tracked<int>" && N_ == 4) return CALL(seq::Tracked<int>, 4);        \
-    if (type == "BigAligned" && N_ == 1) return CALL(BigAligned, 1);                 \
-    if (type == "BigAligned" && N_ == 2) return CALL(BigAligned, 2);                 \
-    if (type == "BigAligned" && N_ == 4) return CALL(BigAligned, 4);                 \
+#define FOR_CFG(CALL)                                                         \
+  do {                                                                        \
+    if (type == "int" && N == 1) return CALL(int, 1);                         \
+    if (type == "int" && N == 2) return CALL(int, 2);                         \
+    if (type == "int" && N == 4) return CALL(int, 4);                         \
+    if (type == "Tracked<int>" && N == 1) return CALL(seq::Tracked<int>, 1);  \
+    if (type == "Tracked<int>" && N == 2) return CALL(seq::Tracked<int>, 2);  \
+    if (type == "Tracked<int>" && N == 4) return CALL(seq::Tracked<int>, 4);  \
+    if (type == "BigAligned" && N == 1) return CALL(BigAligned, 1);           \
+    if (type == "BigAligned" && N == 2) return CALL(BigAligned, 2);           \
+    if (type == "BigAligned" && N == 4) return CALL(BigAligned, 4);           \
   } while (0)
 
 static int do_replay(const char* path, bool with_alias) {
@@ -766,8 +928,12 @@ static int do_replay(const char* path, bool with_alias) {
       continue;
     }
     if (!in) continue;
-    if (line.rfind("type ", 0) == 0) type = line.substr(5);
-    else if (line.rfind("N ", 0) == 0) N = atoi(line.c_str() + 2);
+    if (line.rfind("type ", 0) == 0)
+      type = line.substr(5);
+    else if (line.rfind("N ", 0) == 0)
+      N = atoi(line.c_str() + 2);
+    else if (line.rfind("alloc ", 0) == 0)
+      g_alloc_mode = line.substr(6) == "system" ? 0 : 1;
     else if (line.rfind("ops", 0) == 0) {
       ops = line.size() > 4 ? line.substr(4) : "";
       have_ops = true;
@@ -776,10 +942,10 @@ static int do_replay(const char* path, bool with_alias) {
   }
   if (have_ops) {
 #define CALL_OPS(T_, N_) replay_ops<T_, N_>(ops, with_alias)
-    FOR_CFG(type, N, CALL_OPS);
+    FOR_CFG(CALL_OPS);
   } else if (pn >= 0) {
 #define CALL_PROBE(T_, N_) replay_probe<T_, N_>(pn, pb)
-    FOR_CFG(type, N, CALL_PROBE);
+    FOR_CFG(CALL_PROBE);
   }
   printf("replay: could not parse %s\n", path);
   return 2;
@@ -792,12 +958,21 @@ int main(int argc, char** argv) {
   const char* replay = nullptr;
   bool with_alias = true;
   int depth_override = 0;
+  bool system_only = false;
   for (int i = 1; i < argc; i++) {
     std::string a = argv[i];
-    if (a == "--tier" && i + 1 < argc) tier = argv[++i];
-    else if (a == "--replay" && i + 1 < argc) replay = argv[++i];
-    else if (a == "--no-alias") with_alias = false;
-    else if (a == "--depth" && i + 1 < argc) depth_override = atoi(argv[++i]);
+    if (a == "--tier" && i + 1 < argc)
+      tier = argv[++i];
+    else if (a == "--replay" && i + 1 < argc)
+      replay = argv[++i];
+    else if (a == "--no-alias")
+      with_alias = false;
+    else if (a == "--alloc" && i + 1 < argc) {
+      g_alloc_mode = std::string(argv[++i]) == "system" ? 0 : 1;
+      system_only = g_alloc_mode == 0; // diagnostic run: nothing is executed under the guarantee-only allocator
+    }
+    else if (a == "--depth" && i + 1 < argc)
+      depth_override = atoi(argv[++i]);
   }
   if (replay) return do_replay(replay, with_alias);
 
@@ -807,46 +982,92 @@ int main(int argc, char** argv) {
 
   seq::Report rep;
   rep.name = "c38_smallvector";
-  rep.max_violations = 12;
+  rep.max_violations = 16;
   rep.rule =
-      "phase A: a (canonical-state representative history + one more operation) case counts as non-trivial if a or b is on heap storage before or after "
-      "the last operation, or the last operation copies/moves between a and b; phase B: every probe cell (N, reserve size, ballast count)";
+      "phase A: a case (representative history of a canonical state + one more operation) is non-trivial if a or b is on heap storage before or after "
+      "the last operation, or the last operation copies/moves between a and b; phase B: every probe cell (T, N, reserve size, ballast count, allocator)";
   rep.domain = seq::fmt(
-      "phase A: all histories of <= %d operations on two SmallVector<T,N> a,b, merged by canonical state (contents, inline/heap, capacity of a and b), over "
+      "phase A: all histories of <= %d operations on two SmallVector<T,N> a,b, merged by canonical state (contents, inline/heap, capacity of a and of b), over "
       "{push_back(const&), push_back(&&), emplace_back, pop_back, clear, resize(n), resize(n,v), reserve(n), erase(0|1|last), a=b, a=move(b), a=a, "
       "re-construct with SV(), SV(n), SV(n,v), SV(initializer_list of n), SV(other), SV(move(other))%s} on either vector, n in {0,1,N,N+1,2N+1} "
       "(reserve {0,N,N+1,2N+1}, constructors {0,1,N,N+1}), N in {1,2,4}, T in {int, Tracked<int>, alignas(64) BigAligned}; all accessors "
-      "(size, empty, [], front, back, data, begin/end, cbegin/cend, const overloads) compared after every case; phase B: N in {1,2,4} x T x reserve(n) for "
-      "n in N+1..64 x 0..7 other heap vectors alive, then 2n+1 push_backs, checking the address of every heap buffer",
-      depth, with_alias ? ", push_back(x.front()), resize(n,x.front()) (argument aliases an element, as std::vector allows)" : "");
+      "(size, empty, [], front, back, data, begin/end, cbegin/cend, const overloads) compared after every case; ::operator new(size_t) = %s; "
+      "phase B: N in {1,2,4} x T x reserve(n) for n in N+1..64 x 0..7 other heap vectors alive, then 2n+1 push_backs, address of every heap buffer "
+      "checked, under %s",
+      depth, with_alias ? ", push_back(x.front()), resize(n,x.front()) (argument aliases an element, as std::vector allows)" : "",
+      g_alloc_mode ? "blocks aligned to exactly __STDCPP_DEFAULT_NEW_ALIGNMENT__=16 (all that plain operator new guarantees)" : "process malloc (ASan)",
+      system_only ? "the process allocator only" : "both the process allocator and the 16-aligned guarantee-only allocator");
 
+  // phase A: 9 configurations; Tracked<int> ones share seq::registry() and stay on this thread
+  CfgResult ra[9];
+  {
+    std::vector<std::thread> th;
+    th.emplace_back([&] { explore<int, 1>(ra[0], depth, with_alias); });
+    th.emplace_back([&] { explore<BigAligned, 1>(ra[2], depth, with_alias); });
+    th.emplace_back([&] { explore<int, 2>(ra[3], depth, with_alias); });
+    th.emplace_back([&] { explore<BigAligned, 2>(ra[5], depth, with_alias); });
+    th.emplace_back([&] { explore<int, 4>(ra[6], depth, with_alias); });
+    th.emplace_back([&] { explore<BigAligned, 4>(ra[8], depth, with_alias); });
+    explore<seq::Tracked<int>, 1>(ra[1], depth, with_alias);
+    explore<seq::Tracked<int>, 2>(ra[4], depth, with_alias);
+    explore<seq::Tracked<int>, 4>(ra[7], depth, with_alias);
+    for (auto& t : th) t.join();
+  }
+  fprintf(stderr, "[c38] phase A done at %.1f s\n", std::chrono::duration<double>(std::chrono::steady_clock::now() - rep.t0).count());
+  // phase B (single thread; allocator mode is switched between the two passes)
+  CfgResult rb[2];
+  ProbeStats ps[2][3];
+  int saved_mode = g_alloc_mode;
+  for (int mode = 0; mode < (system_only ? 1 : 2); mode++) {
+    g_alloc_mode = mode;
+    probe<int, 1>(rb[mode], ps[mode][0]);
+    probe<int, 2>(rb[mode], ps[mode][0]);
+    probe<int, 4>(rb[mode], ps[mode][0]);
+    probe<seq::Tracked<int>, 1>(rb[mode], ps[mode][1]);
+    probe<seq::Tracked<int>, 2>(rb[mode], ps[mode][1]);
+    probe<seq::Tracked<int>, 4>(rb[mode], ps[mode][1]);
+    probe<BigAligned, 1>(rb[mode], ps[mode][2]);
+    probe<BigAligned, 2>(rb[mode], ps[mode][2]);
+    probe<BigAligned, 4>(rb[mode], ps[mode][2]);
+  }
+  g_alloc_mode = saved_mode;
+  fprintf(stderr, "[c38] phase B done at %.1f s\n", std::chrono::duration<double>(std::chrono::steady_clock::now() - rep.t0).count());
+
+  // deterministic merge
+  std::vector<CfgResult*> all;
+  for (auto& r : ra) all.push_back(&r);
+  for (auto& r : rb) all.push_back(&r);
+  uint64_t states = 0;
   std::set<std::string> reported;
-  Totals tot;
-  // smallest inline capacity first, simplest element type first
-  explore<int, 1>(rep, depth, with_alias, reported, tot);
-  explore<seq::Tracked<int>, 1>(rep, depth, with_alias, reported, tot);
-  explore<BigAligned, 1>(rep, depth, with_alias, reported, tot);
-  explore<int, 2>(rep, depth, with_alias, reported, tot);
-  explore<seq::Tracked<int>, 2>(rep, depth, with_alias, reported, tot);
-  explore<BigAligned, 2>(rep, depth, with_alias, reported, tot);
-  explore<int, 4>(rep, depth, with_alias, reported, tot);
-  explore<seq::Tracked<int>, 4>(rep, depth, with_alias, reported, tot);
-  explore<BigAligned, 4>(rep, depth, with_alias, reported, tot);
-
-  ProbeStats ps_int, ps_tr, ps_big;
-  probe<int, 1>(rep, reported, ps_int);
-  probe<int, 2>(rep, reported, ps_int);
-  probe<int, 4>(rep, reported, ps_int);
-  probe<seq::Tracked<int>, 1>(rep, reported, ps_tr);
-  probe<seq::Tracked<int>, 2>(rep, reported, ps_tr);
-  probe<seq::Tracked<int>, 4>(rep, reported, ps_tr);
-  probe<BigAligned, 1>(rep, reported, ps_big);
-  probe<BigAligned, 2>(rep, reported, ps_big);
-  probe<BigAligned, 4>(rep, reported, ps_big);
-  rep.sample(seq::fmt("{\"probe\":\"BigAligned\",\"heap_buffers\":%llu,\"not_64_aligned\":%llu,\"min_alignment_seen\":%zu}", (unsigned long long)ps_big.heap_buffers,
-                      (unsigned long long)ps_big.misaligned, ps_big.min_align));
-  fprintf(stderr, "[c38] canonical states (sum over 9 configurations) = %llu; BigAligned heap buffers probed %llu, misaligned %llu, min alignment %zu\n",
-          (unsigned long long)tot.states, (unsigned long long)ps_big.heap_buffers, (unsigned long long)ps_big.misaligned, ps_big.min_align);
+  for (CfgResult* r : all) {
+    rep.evaluations += r->evaluations;
+    states += r->states;
+    for (uint64_t h : r->hashes) {
+      size_t before = rep.distinct.size();
+      rep.add_distinct(h);
+      if (rep.distinct.size() == before) rep.distinct_overflow++; // cap reached (hash collisions are negligible): still pairwise distinct cases
+    }
+    rep.distinct_overflow += r->nontrivial - r->hashes.size();
+    if (!r->log.empty()) fprintf(stderr, "%s\n", r->log.c_str());
+  }
+  for (int i : {8, 4, 0, 5, 7}) // a few samples from different configurations
+    for (auto& s : ra[i].samples) rep.sample(s);
+  rep.samples.resize(std::min<size_t>(rep.samples.size(), 4));
+  rep.sample(seq::fmt("{\"probe\":\"BigAligned heap buffers\",\"system_alloc\":{\"buffers\":%llu,\"not_64_aligned\":%llu,\"min_alignment\":%zu},"
+                      "\"minalign_alloc\":{\"buffers\":%llu,\"not_64_aligned\":%llu,\"min_alignment\":%zu}}",
+                      (unsigned long long)ps[0][2].heap_buffers, (unsigned long long)ps[0][2].misaligned, ps[0][2].min_align,
+                      (unsigned long long)ps[1][2].heap_buffers, (unsigned long long)ps[1][2].misaligned, ps[1][2].min_align));
+  // violations: configuration order (N ascending, simplest type first), one per tag
+  for (CfgResult* r : all)
+    for (auto& v : r->viols)
+      if (reported.insert(v.tag).second) {
+        // Report::violation writes the artefact; its text is the replay input
+        rep.violation(v.msg, v.replay);
+      }
+  fprintf(stderr, "[c38] expanded canonical states (sum over 9 configurations) = %llu\n", (unsigned long long)states);
+  for (int mode = 0; mode < 2; mode++)
+    fprintf(stderr, "[c38] probe allocator=%s BigAligned: heap buffers %llu, not 64-aligned %llu, min alignment seen %zu\n", mode ? "minalign" : "system",
+            (unsigned long long)ps[mode][2].heap_buffers, (unsigned long long)ps[mode][2].misaligned, ps[mode][2].min_align);
   return rep.finish();
 }
 
